@@ -1,0 +1,71 @@
+//go:build verif
+
+package s2
+
+import (
+	"github.com/golang/geo/r2"
+	"github.com/golang/geo/s1"
+)
+
+// Thin wrappers exporting unexported pieces of cell.go / cellid.go / stuv.go /
+// edge_distances.go to the verification harness (property C12).
+// Add-only; no behaviour of the package changes.
+
+func VerifC12FaceIJOrientation(ci CellID) (f, i, j, o int) { return ci.faceIJOrientation() }
+func VerifC12FaceSiTi(ci CellID) (int, uint32, uint32)     { return ci.faceSiTi() }
+func VerifC12CenterUV(ci CellID) r2.Point                  { return ci.centerUV() }
+func VerifC12IJLevelToBoundUV(i, j, level int) r2.Rect     { return ijLevelToBoundUV(i, j, level) }
+func VerifC12StToUV(s float64) float64                     { return stToUV(s) }
+func VerifC12UVToST(u float64) float64                     { return uvToST(u) }
+func VerifC12StToIJ(s float64) int                         { return stToIJ(s) }
+func VerifC12SiTiToST(si uint32) float64                   { return siTiToST(si) }
+func VerifC12IJToSTMin(i int) float64                      { return ijToSTMin(i) }
+func VerifC12CellIDFromPoint(p Point) CellID               { return cellIDFromPoint(p) }
+func VerifC12FaceXYZToUV(f int, p Point) (float64, float64, bool) {
+	return faceXYZToUV(f, p)
+}
+func VerifC12FaceXYZtoUVW(f int, p Point) Point { return faceXYZtoUVW(f, p) }
+func VerifC12PosToIJ() [4][4]int                { return posToIJ }
+func VerifC12PosToOrientation() [4]int          { return posToOrientation }
+
+// VerifC12CellFields exposes every field of a Cell.
+func VerifC12CellFields(c Cell) (face, level, orientation int, id CellID, uv r2.Rect) {
+	return int(c.face), int(c.level), int(c.orientation), c.id, c.uv
+}
+
+// VerifC12MakeCell builds a Cell from explicit fields (no consistency check).
+func VerifC12MakeCell(face, level, orientation int, id CellID, uv r2.Rect) Cell {
+	return Cell{face: int8(face), level: int8(level), orientation: int8(orientation), id: id, uv: uv}
+}
+
+func VerifC12VertexChordDist2(c Cell, p Point, xHi, yHi bool) s1.ChordAngle {
+	return c.vertexChordDist2(p, xHi, yHi)
+}
+func VerifC12UEdgeIsClosest(c Cell, p Point, vHi bool) bool { return c.uEdgeIsClosest(p, vHi) }
+func VerifC12VEdgeIsClosest(c Cell, p Point, uHi bool) bool { return c.vEdgeIsClosest(p, uHi) }
+func VerifC12EdgeDistance(ij, uv float64) s1.ChordAngle     { return edgeDistance(ij, uv) }
+func VerifC12DistanceInternal(c Cell, p Point, toInterior bool) s1.ChordAngle {
+	return c.distanceInternal(p, toInterior)
+}
+func VerifC12UpdateMinDistance(x, a, b Point, minDist s1.ChordAngle, always bool) (s1.ChordAngle, bool) {
+	return updateMinDistance(x, a, b, minDist, always)
+}
+func VerifC12InteriorDist(x, a, b Point, minDist s1.ChordAngle, always bool) (s1.ChordAngle, bool) {
+	return interiorDist(x, a, b, minDist, always)
+}
+func VerifC12MinUpdateDistanceMaxError(d s1.ChordAngle) float64 {
+	return minUpdateDistanceMaxError(d)
+}
+func VerifC12Latitude(c Cell, i, j int) float64  { return c.latitude(i, j) }
+func VerifC12Longitude(c Cell, i, j int) float64 { return c.longitude(i, j) }
+
+// VerifC12FaceUVToXYZ exposes faceUVToXYZ (unnormalized direction of a face/uv position).
+func VerifC12FaceUVToXYZ(f int, u, v float64) Point { return Point{faceUVToXYZ(f, u, v)} }
+
+// VerifC12CapFields exposes the centre and the chord-angle radius of a Cap.
+func VerifC12CapFields(c Cap) (Point, s1.ChordAngle) { return c.center, c.radius }
+
+// VerifC12XYZToFaceUV exposes xyzToFaceUV (face selection and projection used by cellIDFromPoint).
+func VerifC12XYZToFaceUV(p Point) (int, float64, float64) { return xyzToFaceUV(p.Vector) }
+
+func VerifC12CellIDFromFaceIJ(f, i, j int) CellID { return cellIDFromFaceIJ(f, i, j) }
